@@ -7,9 +7,9 @@ import common as C
 
 VFILES = ["props/C04.v"]
 USES_TRANSLATOR = True
-EXTRA_TRUST = ["coq/AbnfRead.v: the independent spec reader (what an ABNF text denotes)",
+EXTRA_TRUST = ["coq/RenderSpec.v: the declarative rendering relation (what texts denote a given abstract syntax), 280 lines, quoted from RFC 5234 / 7405; coq/AbnfRead.v (spec reader) is proved to invert it and drops out of the trusted base of C04_every_rendering",
                "coq/Visitor.v, coq/Compile.v: model of the library's visitor and of create/load_grammar over the translated meta-grammar"]
-ASSUMPTIONS = ["PARTIAL: the link 'every derivation tree of a text has the abstract syntax the spec reader returns' is not a theorem; it is covered by the three-way correspondence"]
+ASSUMPTIONS = ["what texts denote a syntax is fixed by the rendering relation coq/RenderSpec.v (trusted specification); registries are assumed to still hold the boot rules (boot_ok: true initially, kept by definitions that do not clash with core names)"]
 
 
 def run(ctx):
@@ -59,7 +59,7 @@ def run(ctx):
         cov["bundled_texts_kernel_checked"] = {"file": "coq/thorough/C04_bundled.v", "discharged": ok, "classes": 26}
         if not ok:
             viol.append({"what": "kernel-checked obligation 'library route = spec route on the bundled texts' no longer holds: " + (so + se)[-300:],
-                         "identity": "c04-bundled-obligation", "replay_payload": {"property": "C04", "no_longer_checks": "coq/thorough/C04_bundled.v", "output": (so + se)[-1500:]}})
+                         "identity": "c04-bundled-obligation", "no_input": True, "replay_payload": {"property": "C04", "no_longer_checks": "coq/thorough/C04_bundled.v", "output": (so + se)[-1500:]}})
     cov["samples"] = cov["samples"][:4]
     cov["rule"] = ("random abstract syntax (1-4 rules; all repeat forms; %b/%d/%x values, series, ranges; %s/%i strings; groups, "
                    "options, prose, references to core rules in random case; =/) rendered with random layout (comments, "
